@@ -43,3 +43,26 @@ Example fault_example_runs :
   | None => (false, false, O, true)
   end = (true, true, 3%nat, false).
 Proof. vm_compute. reflexivity. Qed.
+
+(* model v2: the OnOpen reply cannot be written (EPIPE): the connection is doomed and
+   el.open closes it at once with an error *)
+Definition fault_example_open : list line :=
+  [("cfg", [AInt 0; AInt 0; AInt 64; AInt 3; AInt 10; AInt 10]);
+   ("accepted", [AInt 7]);
+   ("wait", [AInt 3; AInt 1]);
+   ("r", [ASym "epctl"; AInt 0]);
+   ("hret", [ASym "none"; ABytes [1; 2]]);
+   ("r", [ASym "wr"; AInt 2; AInt (-1); ASym "epipe"]);
+   ("hret", [ASym "none"]);
+   ("r", [ASym "epctl"; AInt 0]);
+   ("r", [ASym "close"; AInt 0]);
+   ("wait", [])].
+
+Example fault_example_open_runs :
+  match run_history fault_example_open with
+  | Some t => (fault_ok t, fuel_ok t,
+               existsb (fun e => match e with EOut ("cb", [ASym "close"; AInt 0; ASym "err"]) => true | _ => false end) t,
+               existsb is_desync t)
+  | None => (false, false, false, true)
+  end = (true, true, true, false).
+Proof. vm_compute. reflexivity. Qed.
